@@ -1,6 +1,6 @@
 (* Properties/C19.v — vertices and transactions survive every transcoding unchanged. *)
 From Coq Require Import List Arith NArith ZArith Lia Bool.
-From Verif Require Import WalletFile Msg Codec CodecP Msgpack CodecFields MsgpackP.
+From Verif Require Import WalletFile Msg Codec CodecP Msgpack CodecFields MsgpackP ProtoWire ProtoWireP.
 Import ListNotations.
 Local Open Scope Z_scope.
 
@@ -67,3 +67,41 @@ Example C19_wf_nonvacuous :
                (MTrx (-1, 5) (repeat 2%N 51) [] (repeat 0%N 40) None (Some []) (Some (repeat 9%N 300)) (repeat 200%N 32) (MMel 18446744073709551615 0))
                (repeat 3%N 32) (repeat 0%N 32) (repeat 255%N 32) 18446744073709551615).
 Proof. unfold wf_vtx, wf_trx, wf_time, wf_obin, wf_mel, zlen, P32', P63, P64; cbn [mv_signer mv_created mv_sig mv_trx mv_hash mv_left mv_right mv_weight mt_created mt_issuer mt_receiver mt_subject mt_data mt_isig mt_rsig mt_hash mt_spice mm_cur mm_sup fst snd]; rewrite ?repeat_length; cbn [List.length]; repeat split; lia. Qed.
+
+(* The gossip (protobuf WIRE) form, byte level.  `enc_pvtx` is what proto.Marshal writes for protobufcompiled.Vertex with its embedded
+   Transaction and Spice (proto3 presence rules, base-128 varints, length-delimited strings / byte strings / sub-messages) and is compared
+   byte for byte with proto.Marshal on every run; `dec_pvtx` is the general record grammar (any order, unknown fields skipped, last
+   scalar wins, repeated sub-messages merged) and is compared with proto.Unmarshal on those bytes and on every prefix of them.
+   (1) varints: all 2^64 values, whatever follows ... *)
+Theorem C19_protowire_varint_roundtrip : forall n rest, (n < N64)%N -> dec_varint (enc_varint n ++ rest) = Some (n, rest).
+Proof. exact varint_roundtrip. Qed.
+Print Assumptions C19_protowire_varint_roundtrip.
+
+(* ... (2) every wire struct - any field empty or not, sub-messages present or nil, all 2^64 integers, every length below 2^64 -
+   decodes back to exactly itself ... *)
+Theorem C19_protowire_message_roundtrip : forall p, wf_pvtx p -> dec_pvtx (enc_pvtx p) = Some p.
+Proof. exact pvtx_roundtrip. Qed.
+Print Assumptions C19_protowire_message_roundtrip.
+
+(* ... (3) in particular the wire struct src/gossip builds from ANY vertex a node can hold (the well-formedness of the storage model:
+   fields below 2^32 bytes, 32-byte hashes, uint64 amounts and weight, int64 seconds) - with the negative / wrapped timestamps,
+   nil and empty byte strings and zero amounts that proto3 leaves out of the message ... *)
+Theorem C19_protowire_vertex_roundtrip : forall v, wf_vtx v -> dec_pvtx (enc_pvtx (to_pvtx v)) = Some (to_pvtx v).
+Proof. exact vertex_wire_roundtrip. Qed.
+Print Assumptions C19_protowire_vertex_roundtrip.
+
+(* ... (4) and two different wire structs never share their bytes. *)
+Theorem C19_protowire_encoding_injective : forall v w, wf_pvtx v -> wf_pvtx w -> enc_pvtx v = enc_pvtx w -> v = w.
+Proof. exact pvtx_encoding_injective. Qed.
+Print Assumptions C19_protowire_encoding_injective.
+
+(* The decoder is order-insensitive and skips unknown fields (what lets a newer peer add a field), shown on Spice. *)
+Theorem C19_protowire_unknown_field_skipped : forall s k w, wf_pspice s -> wf_field (k, w) -> (3 <= k)%N ->
+  dec_pspice (enc_fields (spice_wire s ++ [(k, w)])) = Some s.
+Proof. exact pspice_unknown_field_skipped. Qed.
+Print Assumptions C19_protowire_unknown_field_skipped.
+
+Example C19_protowire_nonvacuous :
+  enc_pvtx (PVtx [65%N] 300%N [] (Some (PTrx [66%N] [] [] 1%N [] [] [] [] (Some (PSpice 0 0)))) [] [] [] 0%N)
+  = [10; 1; 65; 16; 172; 2; 34; 7; 10; 1; 66; 32; 1; 74; 0]%N.
+Proof. vm_compute. reflexivity. Qed.
